@@ -649,3 +649,19 @@ var _ = time.Now
 
 // NewIdentForRatio exposes identity creation (deterministic from the generator's PRNG)
 func (g *Gen) NewIdentForRatio() Ident { return g.newIdent() }
+
+// AllSkipped: the proposal has operations but every one of them is skipped by
+// DefaultProposalProcessor.getOperation (unknown / already processed / expel inside a proposal) and the
+// voteproof carries no expels.
+func (c *Case) AllSkipped() bool {
+	if len(c.Ops) == 0 || len(c.Expels) > 0 {
+		return false
+	}
+	for _, o := range c.Ops {
+		_, isexpel := o.Op.Fact().(isaac.SuffrageExpelFact)
+		if !(isexpel || o.Get == GetNotFound || o.Get == GetProcessed) {
+			return false
+		}
+	}
+	return true
+}
